@@ -340,7 +340,7 @@ def _srange(maxiter):
     return srange
 
 
-def cascade(V, P, C, stride, mode, kmax, hmax):
+def cascade(V, P, C, stride, mode, kmax, hmax, dy=1):
     """the REAL generate_high_level_commands_for_sched_op on a 2-op cascade (producer 1x1 with stripe height P; consumer
     k x 1 depthwise, stride, stripe height C) with stand-in schedule objects and a symbolic tensor height.
     Claims: producer and consumer OFM stripes partition their OFMs in order; each consumer stripe starts only after the rows
@@ -361,7 +361,8 @@ def cascade(V, P, C, stride, mode, kmax, hmax):
     k = V.int("k", 1, kmax)
     y = V.int("y", 0, hmax)
     t = V.int("tap", 0, kmax - 1)
-    kern_c = Kernel(1, k, 1, stride, 1, 1)
+    kern_c = Kernel(1, k, 1, stride, 1, dy)  # kernel height k, height dilation dy, width dilation 1
+    kd = kern_c.area_height()  # dilated kernel height
     kern_p = Kernel(1, 1, 1, 1, 1, 1)
     with core.shims(*(_shims() + (_aa_shims(), (gen, {"range": _srange(12), "min": core.smin, "max": core.smax}),
                                    (cb, {"max": core.smax, "min": core.smin})))):
@@ -369,11 +370,11 @@ def cascade(V, P, C, stride, mode, kmax, hmax):
             padding, skirt = go.calc_padding_and_skirt(Padding.SAME, kern_c, Shape4D(1, H, W, 16), None)
             OH = (L(H) + stride - 1) / stride
         else:
-            V.assume(L(H) >= L(k))
+            V.assume(L(H) >= L(kd))
             padding, skirt = go.calc_padding_and_skirt(Padding.VALID, kern_c, Shape4D(1, H, W, 16), None)
-            OH = (L(H) - L(k)) / stride + 1
+            OH = (L(H) - L(kd)) / stride + 1
         V.assume(z3.And(OH <= 4 * C, L(H) <= 10 * P, OH > C))  # loop bounds; consumer really striped
-        V.assume(z3.And(L(y) < OH, L(t) < L(k)))
+        V.assume(z3.And(L(y) < OH, L(t) < L(kd)))
         OHs = SInt(OH)
         mid = _Obj(shape=Shape4D(1, H, W, 16), connection=None)
         in0 = _Obj(shape=Shape4D(1, H, W, 16), connection=None)
@@ -392,7 +393,7 @@ def cascade(V, P, C, stride, mode, kmax, hmax):
 
         prod = mkop("producer", tens["in0"], tens["mid"], _Obj(shape=[1, 1, 1, 16]), kern_p,
                     {"skirt": [0, 0, 0, 0], "explicit_padding": [0, 0, 0, 0]}, 0, in0, mid)
-        cons = mkop("consumer", tens["mid"], tens["out"], wt, kern_c, {"skirt": list(skirt), "explicit_padding": list(padding)}, 1, mid, out)
+        cons = mkop("consumer", tens["mid"], tens["out"], wt, kern_c, {"skirt": list(skirt), "explicit_padding": list(padding), "dilation": (1, dy, 1, 1)}, 1, mid, out)
         mid.connection = _Obj(producers=[prod])
         bc = _Obj(old_style_representation=lambda: [1, 1, 1, 16])
 
@@ -424,7 +425,7 @@ def cascade(V, P, C, stride, mode, kmax, hmax):
             claims.append(("consumer stripe %d: rows it reads have been produced" % n_c, E <= R))
             # recorded finding: the generator's IFM box end (b*stride + skirt) can lie up to stride-1 rows beyond the rows the stripe
             # reads; with a slack of >= 2 rows (stride 3) the producer is driven further ahead than the buffer sizing assumed
-            needed_end = (b0 - 1) * stride - L(padding[0]) + L(k)
+            needed_end = (b0 - 1) * stride - L(padding[0]) + L(kd)
             needed_end = z3.If(needed_end > L(H), L(H), needed_end)
             fid = "C10-rolling-buffer-overrun-stride3"
             claims.append(("[%s] consumer stripe %d: rows it reads not yet overwritten in the rolling buffer" % (fid, n_c),
@@ -434,7 +435,7 @@ def cascade(V, P, C, stride, mode, kmax, hmax):
                 p_t, p_b = L(padding[0]), L(padding[2])
             else:
                 p_t, p_b = L(cmd.pad_top), L(cmd.pad_bottom)
-            for nm, c in _sampling_claims(L(H), L(k), stride, a0, b0, L(y), L(t), L(padding[0]), S, E, p_t, p_b, tag="stripe %d: " % n_c):
+            for nm, c in _sampling_claims(L(H), L(kd), stride, a0, b0, L(y), L(t), L(padding[0]), S, E, p_t, p_b, tag="stripe %d: " % n_c):
                 claims.append((nm, z3.Implies(z3.And(L(y) >= a0, L(y) < b0), c)))
             prev_cons_end = b0
             n_c += 1
@@ -469,7 +470,7 @@ def instances(tier, seed):
                 out.append(dict(key="area/%s/s%d/d%d" % (mode, stride, dil), fn="area", params=dict(stride=stride, dil=dil, mode=mode, nearest=False, hmax=hmax)))
     for mode in ("EXPL", "VALID"):
         out.append(dict(key="area/nearest/%s" % mode, fn="area", params=dict(stride=1, dil=1, mode=mode, nearest=True, hmax=hmax)))
-    pcs = [(1, 1), (2, 1), (1, 2), (3, 2), (2, 3), (4, 2)] if tier == "quick" else [(p, c) for p in range(1, 7) for c in range(1, 5)]
+    pcs = [(1, 1), (2, 1), (1, 2), (3, 2), (2, 3), (4, 2), (5, 2), (5, 1)] if tier == "quick" else [(p, c) for p in range(1, 7) for c in range(1, 5)]
     for P, C in pcs:
         for stride in (1, 2, 3):
             if 10 * P < C * stride + 1:
@@ -477,4 +478,8 @@ def instances(tier, seed):
             for mode in ("SAME", "VALID"):
                 out.append(dict(key="cascade/P%d_C%d/s%d/%s" % (P, C, stride, mode), fn="cascade",
                                 params=dict(P=P, C=C, stride=stride, mode=mode, kmax=5 if tier == "quick" else 7, hmax=40), weight=50))
+                if stride == 1 and (tier != "quick" or (P, C) in ((2, 1), (3, 2))):
+                    # height dilation 2 with width dilation 1: the generator must use the HEIGHT dilation for the dilated kernel height
+                    out.append(dict(key="cascade/P%d_C%d/s%d/%s/dil2" % (P, C, stride, mode), fn="cascade",
+                                    params=dict(P=P, C=C, stride=stride, mode=mode, kmax=3, hmax=40, dy=2), weight=50))
     return out
